@@ -28,7 +28,7 @@ ASSUMPTIONS = ["Redis and RabbitMQ are wire-level fakes speaking the real protoc
                "argument payloads starting with the reserved bucket marker are excluded (per the statement)",
                "inputs a broker refuses loudly at enqueue are counted under refused_inputs, not judged"]
 EVAL_COUNTER = "items_judged"
-REQUIRED = ["items_judged", "jobs_roundtripped", "bucket_transport", "codec_roundtrips", "keys_checked", "durations_over_10y", "reused_bucket_ids", "slow_argument_store_runs", "job_twins_judged"]
+REQUIRED = ["items_judged", "jobs_roundtripped", "bucket_transport", "codec_roundtrips", "keys_checked", "durations_over_10y", "reused_bucket_ids", "slow_argument_store_runs", "job_twins_judged", "flushes_judged"]
 CASE_TIMEOUT = 150
 
 NAME_FIRST = string.ascii_letters + "_"
@@ -48,6 +48,7 @@ def gen_cases(tier, seed):
     for i in range({"quick": 4, "thorough": 40}[tier]):
         cases.append({"type": "keys", "seed": rnd.randrange(10**6), "n": 400})
     cases.append({"type": "collide", "seed": 1})
+    cases.append({"type": "flush", "seed": 1})
     for i in range({"quick": 6, "thorough": 30}[tier]):
         cases.append({"type": "jobtwins", "kind": ["mem", "redis", "rabbit"][i % 3], "bucket": ["mem", "redis"][(i // 3) % 2], "seed": rnd.randrange(10**6)})
     for i in range({"quick": 6, "thorough": 60}[tier]):
@@ -419,6 +420,50 @@ async def collide_case(loop, out, stats, fps):
                 rig.close()
 
 
+async def flush_case(loop, out, stats, fps):
+    """Queue names that are prefixes / near-misses of one another: flushing or deleting one queue through the public Queue
+    API empties exactly that queue (waiting, delayed and dead-lettered messages) and leaves the others as they were."""
+    from repid import Queue
+    from repid.data._parameters import DelayProperties
+    from rv.rigs import Rig, key_of
+
+    names = ["qa", "qa2", "q", "qa-x", "qa_x", "Qa"]
+    for kind in ("mem", "redis", "rabbit"):
+        for op in ("flush", "delete"):
+            for target in ("qa", "q"):
+                rig = Rig(kind, loop, latency=None)
+                try:
+                    conn = rig.make_connection("p1")
+                    await conn.connect()
+                    mb = conn.message_broker
+                    P = mb.PARAMETERS_CLASS
+                    for q in names:
+                        await mb.queue_declare(q)
+                        await mb.enqueue(key_of(conn, f"{q}_w", "t", q, 5), "w", P())
+                        await mb.enqueue(key_of(conn, f"{q}_h", "t", q, 9), "h", P())
+                        await mb.enqueue(key_of(conn, f"{q}_d", "t", q, 5), "d", P(delay=DelayProperties(next_execution_time=datetime.now() + timedelta(hours=2))))
+                    await asyncio.sleep(0.05)
+                    before = {i: pl for i, pl in rig.snapshot().items()}
+                    await getattr(Queue(target, _connection=conn), op)()
+                    await asyncio.sleep(0.05)
+                    after = rig.snapshot()
+                    stats["items_judged"] += 1
+                    stats["flushes_judged"] += 1
+                    fps.add(f"flush/{kind}/{op}/{target}")
+                    for q in names:
+                        for suffix in ("w", "h", "d"):
+                            id_ = f"{q}_{suffix}"
+                            if q == target:
+                                if after.get(id_):
+                                    out.append(V("key_collision", kind, f"{op}/not-emptied", f"Queue({target!r}).{op}(): {id_} is still at {after.get(id_)}"))
+                            elif after.get(id_) != before.get(id_):
+                                out.append(V("key_collision", kind, f"{op}/other-queue-touched", f"Queue({target!r}).{op}() changed {id_} of queue {q!r}: {before.get(id_)} -> {after.get(id_)}"))
+                    await conn.disconnect()
+                    stats["unknown_server_commands"] += rig.unknown_commands()
+                finally:
+                    rig.close()
+
+
 async def jobtwins_case(loop, case, out, stats, fps):
     """Jobs that share a name and/or an id but are different messages (other queue, priority or name), with their arguments
     travelling through the argument bucket under the default bucket ids: each consumer-side payload resolves to its own job's
@@ -569,6 +614,10 @@ def run_case(case):
         codec_case(case, out, stats, fps)
     elif case["type"] == "keys":
         keys_case(case, out, stats, fps)
+    elif case["type"] == "flush":
+        res = vl.run(lambda loop: flush_case(loop, out, stats, fps), max_steps=4_000_000, seed=1)
+        if res.exc is not None:
+            out.append(V("harness_or_api_error", "-", "flush", f"{type(res.exc).__name__}: {res.exc}"))
     elif case["type"] == "jobtwins":
         res = vl.run(lambda loop: jobtwins_case(loop, case, out, stats, fps), max_steps=4_000_000, seed=case["seed"])
         if res.exc is not None:
